@@ -573,8 +573,11 @@ class MetadataManager:
             return None
         if not text:
             return None
-        if text.isdigit():
-            # Legacy format: plain version number -> legacy filename
+        if text.isascii() and text.isdigit():
+            # Legacy format: plain version number -> legacy filename.
+            # ASCII only: str.isdigit() is also true for characters such as
+            # '\u00b2' (superscript two), for which int() raises - a corrupt hint
+            # must be unparseable (-> recovery scan), never an exception.
             return int(text), f"v{text}.metadata.json"
         m = _METADATA_FILE_RE.match(text)
         if m:
